@@ -22,16 +22,24 @@ CONSTANTS NStmts          \* number of traced statements in the script
 Modes == {"falloff", "sysexit", "sysexit0", "sysexitNone", "sysexit1", "sysexitStr", "exception", "kbdint",
           "raiseSE0", "raiseSE1", "builtinexit0", "builtinexit1"}
 
-VARIABLES pc, pos, mode, autoprove, hasProcessSnark, exitcode, excseen, status, proved, hookfailed, lenAtProve
-vars == <<pc, pos, mode, autoprove, hasProcessSnark, exitcode, excseen, status, proved, hookfailed, lenAtProve>>
+\* An EARLIER sys.exit call that did not end the process may precede the way the script finally terminates:
+\*   "caught0"/"caught1": try: sys.exit(0 / 1) except SystemExit: pass     (argparse --help style), then the script goes on
+\*   "fin0"/"fin1":       try: sys.exit(0 / 1) finally: <the final sys.exit>   (the later call decides the status)
+\* The interposed sys.exit records the code of EVERY call; the last call wins; a termination that bypasses the interposition
+\* leaves the code of the earlier call in place.
+Priors == {"none", "caught0", "caught1", "fin0", "fin1"}
+
+VARIABLES pc, pos, mode, prior, autoprove, hasProcessSnark, exitcode, excseen, status, proved, hookfailed, lenAtProve
+vars == <<pc, pos, mode, prior, autoprove, hasProcessSnark, exitcode, excseen, status, proved, hookfailed, lenAtProve>>
 
 \* exitcode: what ExitOverrider.exit recorded: "unset", "zero", "none", "nonzero"
 Init == /\ pc = "run" /\ pos = 0
         /\ mode \in Modes /\ autoprove \in BOOLEAN /\ hasProcessSnark \in BOOLEAN
+        /\ prior \in Priors /\ (prior \in {"fin0", "fin1"} => mode \in {"sysexit0", "sysexit1", "sysexitStr"})
         /\ exitcode = "unset" /\ excseen = FALSE /\ status = -1 /\ proved = 0 /\ hookfailed = FALSE /\ lenAtProve = -1
 
 Stmt == /\ pc = "run" /\ pos < NStmts /\ pos' = pos + 1
-        /\ UNCHANGED <<pc, mode, autoprove, hasProcessSnark, exitcode, excseen, status, proved, hookfailed, lenAtProve>>
+        /\ UNCHANGED <<pc, mode, prior, autoprove, hasProcessSnark, exitcode, excseen, status, proved, hookfailed, lenAtProve>>
 
 \* process exit status CPython gives for each way of terminating
 StatusOf(m) == CASE m \in {"falloff", "sysexit", "sysexit0", "sysexitNone", "raiseSE0", "builtinexit0"} -> 0
@@ -46,10 +54,10 @@ Terminate ==
     /\ exitcode' = CASE mode \in {"sysexit", "sysexit0"} -> "zero"
                      [] mode = "sysexitNone" -> "none"
                      [] mode \in {"sysexit1", "sysexitStr"} -> "nonzero"
-                     [] OTHER -> "unset"
+                     [] OTHER -> (CASE prior \in {"caught0", "fin0"} -> "zero" [] prior \in {"caught1", "fin1"} -> "nonzero" [] OTHER -> "unset")
     \* the excepthook sees every uncaught exception except SystemExit
     /\ excseen' = (mode \in {"exception", "kbdint"})
-    /\ UNCHANGED <<pos, mode, autoprove, hasProcessSnark, proved, hookfailed, lenAtProve>>
+    /\ UNCHANGED <<pos, mode, prior, autoprove, hasProcessSnark, proved, hookfailed, lenAtProve>>
 
 \* atexit: maybe(final)
 AtExit ==
@@ -59,7 +67,7 @@ AtExit ==
             THEN proved' = proved + 1 /\ lenAtProve' = pos /\ hookfailed' = hookfailed
             ELSE proved' = proved /\ lenAtProve' = lenAtProve /\ hookfailed' = FALSE     \* final() calls backend.process_snark only if the backend offers it
        ELSE proved' = proved /\ lenAtProve' = lenAtProve /\ hookfailed' = hookfailed
-    /\ UNCHANGED <<pos, mode, autoprove, hasProcessSnark, exitcode, excseen, status>>
+    /\ UNCHANGED <<pos, mode, prior, autoprove, hasProcessSnark, exitcode, excseen, status>>
 
 Next == Stmt \/ Terminate \/ AtExit
 Spec == Init /\ [][Next]_vars
@@ -73,10 +81,12 @@ Inv_Exit ==
             /\ (~autoprove) => (proved = 0 /\ ~hookfailed)
 
 \* the bypass paths, as predicates on a finished behaviour (they are exactly the counterexamples TLC finds)
-BypassNonzero == mode \in {"raiseSE1", "builtinexit1"} /\ autoprove
-Inv_ExitModuloKnown == (Done /\ ~BypassNonzero) => Inv_Exit
+BypassNonzero == mode \in {"raiseSE1", "builtinexit1"} /\ autoprove /\ prior \notin {"caught1"}
+\* the stale code of an earlier, caught sys.exit(1): a run that then ends with status 0 without another interposed call is not proved
+StaleNonzero == prior = "caught1" /\ autoprove /\ mode \in {"falloff", "raiseSE0", "builtinexit0"}
+Inv_ExitModuloKnown == (Done /\ ~BypassNonzero /\ ~StaleNonzero) => Inv_Exit
 
 \* generator: one record per finished behaviour
-Emit == Done => PrintT(<<"BEH", ToJson([mode |-> mode, pos |-> pos, autoprove |-> autoprove, hasps |-> hasProcessSnark,
+Emit == Done => PrintT(<<"BEH", ToJson([mode |-> mode, prior |-> prior, pos |-> pos, autoprove |-> autoprove, hasps |-> hasProcessSnark,
                                         status |-> status, proved |-> proved, hookfailed |-> hookfailed, lenAtProve |-> lenAtProve])>>)
 =============================================================================
